@@ -247,6 +247,7 @@ func propC05() *Prop {
 				js = append(js, job("C05b/wrr-cycle[N=4,w<=4]", "loadbalancer", "VerifC05WRRCycle", 4, 4))
 			}
 			js = append(js, neg(job("C05b/negative-twin", "loadbalancer", "VerifC05NegWRR")))
+			js = append(js, job(fmt.Sprintf("C05c/wrr-bounded-drift-after-any-history[h=%d ops over add/remove/eject/recover/pick,T=6]", tierPick(tier, 2, 3)), "loadbalancer", "VerifC05WRRHistory", tierPick(tier, 2, 3), 6))
 			js = append(js, job("C05c/wrr-bounded-drift-after-eject-recover[N=2,h=12,T=8]", "loadbalancer", "VerifC05WRRDrift", 2, 12, 8))
 			js = append(js, job(fmt.Sprintf("C05c/wrr-bounded-drift-after-eject-recover[N=3,h=%d,T=%d]", tierPick(tier, 12, 24), tierPick(tier, 8, 12)), "loadbalancer", "VerifC05WRRDrift", 3, tierPick(tier, 12, 24), tierPick(tier, 8, 12)))
 			for _, j := range js {
@@ -261,7 +262,7 @@ func propC05() *Prop {
 			"quick":    "round_robin N<=5 with any rotation counter (2 consecutive windows for N<=4); least_connections N<=4 with any gauges 0..2^30 and any health state; smooth WRR exact cycle from a fresh pool built by AddBackend: N<=2 with weights 0..6, N=3 with weights 0..4",
 			"thorough": "round_robin N<=8; least_connections N<=6; WRR N=3 weights 0..6, N=4 weights 0..4",
 		},
-		Outside: []string{"bounded-drift clause after add/remove histories (eject/recover histories are encoded)", "concurrent pickers (see C12 for the pairwise race/atomicity check)", "pools above the stated sizes"},
+		Outside: []string{"bounded-drift clause after histories longer than 2 (quick) / 3 (thorough) operations", "concurrent pickers (see C12 for the pairwise race/atomicity check)", "pools above the stated sizes"},
 	}
 }
 
